@@ -14,13 +14,13 @@ META = {
 def run(ctx, replay_ids=None):
     return rig.functional(
         ctx, fams=["confine"], mc_module="MC_Confine",
-        mc_consts={"Pkgs": "<-MCPkgs", "Fns": "<-MCFns", "Decl": "<-MCDecl"},
+        mc_consts={"MaxBuilds": 2, "Pkgs": "<-MCPkgs", "Fns": "<-MCFns", "Decl": "<-MCDecl"},
         mc_invs=["OnlySupplied", "ErrorIffUnresolved", "RunsOnlyIfResolved"],
         sub="c19", trace_module="Trace_Confine",
-        case_from_obs=lambda o: {"id": o["id"], "importer": o["importer"], "globals": o["globals"], "allowgo": o["allowgo"], "prog": o["prog"]},
+        case_from_obs=lambda o: {"id": o["id"], "importer": o["importer"], "globals": o["globals"], "allowgo": o["allowgo"], "prog": o["prog"], "hist": o["hist"]},
         corrupt=corrupt,
         nontrivial=lambda o: o["build"] == "ok" and o["hookcalls"] > 0,
-        sample=lambda o: {"form": o["form"], "importer": o["importer"], "allowgo": o["allowgo"], "src": o["src"], "build": o["build"], "calls": o["calls"]},
+        sample=lambda o: {"form": o["form"], "step": o["step"], "importer": o["importer"], "allowgo": o["allowgo"], "src": o["src"], "build": o["build"], "calls": o["calls"]},
         rule="every configuration (importer subset, globals, AllowGoStmt) x program of 1-2 reference sites exported by TLC, as Go program and as template; non-trivial = builds and invokes at least one host function",
         replay_ids=replay_ids, mc_workers=8,
     )
